@@ -77,6 +77,17 @@ func sliceOrigins(v ssa.Value) []ssa.Value {
 				}
 				return
 			}
+			if f := x.Call.StaticCallee(); f != nil && f.Pkg == nil && f.Origin() != nil {
+				f = f.Origin()
+				if f.Pkg != nil && f.Pkg.Pkg.Path() == "slices" && (f.Name() == "Clone" || f.Name() == "Clip" || f.Name() == "Compact") {
+					sl(x.Call.Args[0], d+1)
+					return
+				}
+			}
+			if f := x.Call.StaticCallee(); f != nil && f.Pkg != nil && f.Pkg.Pkg.Path() == "slices" && (f.Name() == "Clone" || f.Name() == "Clip" || f.Name() == "Compact") {
+				sl(x.Call.Args[0], d+1)
+				return
+			}
 			out = append(out, v)
 		case *ssa.Slice:
 			// slice of a local array: its element stores
@@ -97,6 +108,14 @@ func sliceOrigins(v ssa.Value) []ssa.Value {
 			}
 			sl(x.X, d+1)
 		case *ssa.MakeSlice:
+			// filled by copy(dst, src)
+			for _, ref := range *x.Referrers() {
+				if c, ok := ref.(*ssa.Call); ok {
+					if b, ok := c.Call.Value.(*ssa.Builtin); ok && b.Name() == "copy" && stripConv(c.Call.Args[0]) == ssa.Value(x) {
+						sl(c.Call.Args[1], d+1)
+					}
+				}
+			}
 		case *ssa.UnOp:
 			if x.Op == token.MUL {
 				if al, ok := x.X.(*ssa.Alloc); ok {
